@@ -63,4 +63,11 @@ def main():
         c02_s1 = None
     if c02_s1 is not None:
         c02_s1.run(R)
+    # wrapper instance lifecycle (at most one qbft.Run per duty, none after expiry): a second instance for a
+    # duty is an agreement hazard (seeded C02-r6m1/m2), so the C03_wrapper sub-check runs here too
+    try:
+        import c03_wrapper
+        c03_wrapper.run(R)
+    except ImportError:
+        pass
     R.finish()
